@@ -51,6 +51,29 @@ NOT_DECIDED = [
 REF = os.path.join(os.path.dirname(os.path.dirname(os.path.abspath(__file__))), 'spec', 'drag_tables_ref.json')
 
 
+def _table_by_evaluation(prog: Program, mod, val: ast.AST):
+    from ..abseval import Ctx, DictVal, Evaluator, Lst, Scalar, State, Tup
+    ev = Evaluator(prog)
+    ev.budget = 200000
+    st = State()
+    v = ev.eval(val, st, Ctx(mod, None, None, 0))
+    if isinstance(v, Lst):
+        items = ev.hp(st, v.oid)['$items']
+    elif isinstance(v, Tup):
+        items = v.items
+    else:
+        raise Undecided(f'evaluates to {type(v).__name__}, not a sequence')
+    pts = []
+    for d in items:
+        if not isinstance(d, DictVal) or set(d.items) != {('c', 'Mach'), ('c', 'CD')}:
+            raise Undecided('an entry is not a {Mach, CD} dictionary')
+        m, c = d.items[('c', 'Mach')], d.items[('c', 'CD')]
+        if not (isinstance(m, Scalar) and isinstance(c, Scalar) and m.rf.is_const() and c.rf.is_const()):
+            raise Undecided('an entry is not a pair of numbers')
+        pts.append((float(m.rf.const_value()), float(c.rf.const_value())))
+    return pts
+
+
 def read_tables(prog: Program):
     mod = prog.module(C.M_DT)
     out = {}
@@ -68,7 +91,11 @@ def read_tables(prog: Program):
                 raise ValueError('unexpected keys')
             out[name] = (pts, st.lineno, '')
         except (ValueError, SyntaxError, TypeError, KeyError) as exc:
-            out[name] = (None, st.lineno, f'not a literal list of {{Mach, CD}} dicts: {exc}')
+            # not a literal: built by a helper of the module - evaluated (engine D), and read from the value
+            try:
+                out[name] = (_table_by_evaluation(prog, mod, val), st.lineno, '')
+            except Undecided as exc2:
+                raise AnalysisError(f'{name} is not a literal list ({exc}) and its value cannot be evaluated: {exc2}')
     return mod, out
 
 
